@@ -123,6 +123,35 @@ class World:
         s._signature.update_hlen()
         return s._signature
 
+    @staticmethod
+    def foreign_lengths(pkt, serial):
+        """the same signature as another producer may write it: serial % 4 == 1 -> every hashed subpacket with a five-octet length,
+        serial % 4 == 2 -> every unhashed subpacket with a five-octet length (both legal, RFC 4880 5.2.3.1); else unchanged"""
+        if serial % 4 not in (1, 2):
+            return pkt
+        # new-format header written by PGPy: c2 + length
+        assert pkt[0] == 0xc2
+        if pkt[1] < 192: body = pkt[2:]
+        elif pkt[1] < 224: body = pkt[3:]
+        else: body = pkt[6:]
+        hl = int.from_bytes(body[4:6], 'big'); hashed = body[6:6 + hl]
+        ul = int.from_bytes(body[6 + hl:8 + hl], 'big'); unhashed = body[8 + hl:8 + hl + ul]; rest = body[8 + hl + ul:]
+        def widen(area):
+            out, i = b'', 0
+            while i < len(area):
+                f0 = area[i]
+                if f0 < 192: n, i = f0, i + 1
+                elif f0 < 255: n, i = ((f0 - 192) << 8) + area[i + 1] + 192, i + 2
+                else: n, i = int.from_bytes(area[i + 1:i + 5], 'big'), i + 5
+                out += b'\xff' + n.to_bytes(4, 'big') + area[i:i + n]; i += n
+            return out
+        if serial % 4 == 1: hashed = widen(hashed)
+        else: unhashed = widen(unhashed)
+        nb = body[:4] + len(hashed).to_bytes(2, 'big') + hashed + len(unhashed).to_bytes(2, 'big') + unhashed + rest
+        n = len(nb)
+        h = bytes([n]) if n < 192 else (bytes([((n - 192) >> 8) + 192, (n - 192) & 0xff]) if n < 8384 else b'\xff' + n.to_bytes(4, 'big'))
+        return b'\xc2' + h + nb
+
     def bytes_of(self, tok):
         """token -> packet octets (and register the export token of those octets)"""
         f = tok.split(':')
@@ -143,6 +172,7 @@ class World:
                 g = e.split(',')
                 embs.append(self.sigpkt(int(g[1]), int(g[2]), int(g[3]), int(g[4]), g[5], False, [], int(g[1])))
             bs = bytes(self.sigpkt(int(f[1]), int(f[2]), int(f[3]), int(f[4]), f[5], f[6] == '1', embs, int(f[1])))
+            bs = self.foreign_lengths(bs, int(f[1]))
             self.tok_of[bs] = 'S%d' % int(f[1])
             return bs
         if f[0] == 'T':
